@@ -289,6 +289,53 @@ def rules_check(case):
     return ok, f"rules {case['forbidden']} on {expr}: {res} instead of {keep}"
 
 
+def wicks_rules_cases(tier, seed):
+    """sums whose terms are operator free (bare tensor, product, power, number times tensor) or
+    carry an operator string; rules handed to wicks itself"""
+    ov = {"f": ["ov"]}
+    yield {"forbidden": ov, "terms": [{"objs": [["f", "ia", 1]], "ops": "", "num": 1}]}
+    yield {"forbidden": ov, "terms": [{"objs": [["f", "ia", 1], ["X", "ai", 1]], "ops": "", "num": 2}]}
+    yield {"forbidden": ov, "terms": [{"objs": [["f", "ia", 2]], "ops": "", "num": 1}]}
+    yield {"forbidden": ov, "terms": [{"objs": [["f", "ia", 1]], "ops": "", "num": 1},
+                                      {"objs": [["f", "ia", 1], ["X", "ai", 1]], "ops": "kk", "num": 1},
+                                      {"objs": [["f", "ij", 1]], "ops": "", "num": 3}]}
+    yield {"forbidden": {}, "terms": [{"objs": [["f", "ia", 1]], "ops": "", "num": 1}]}
+    yield {"forbidden": ov, "terms": [{"objs": [], "ops": "", "num": 5}]}
+    rng = random.Random(seed + 11)
+    blocks = ["oo", "ov", "vv", "vo"]
+    for _ in range(40 if tier == "quick" else 400):
+        forb = {}
+        for name in rng.sample(["f", "X"], rng.randint(0, 2)):
+            forb[name] = rng.sample(blocks, rng.randint(1, 2))
+        terms = []
+        for _t in range(rng.randint(1, 4)):
+            objs = [[rng.choice(["f", "X"]), rng.choice(["ij", "ia", "ab", "ai"]), rng.choice([1, 1, 2])]
+                    for _o in range(rng.randint(0 if _t else 1, 2))]
+            terms.append({"objs": objs, "ops": rng.choice(["", "", "kk", "kl", "ck", "kkll"]),
+                          "num": rng.choice([1, 1, 2, -3])})
+        yield {"forbidden": forb, "terms": terms}
+
+
+def wicks_rules_check(case):
+    idx = {n: get_symbols(n)[0] for n in "ijabklc"}
+    forb = case["forbidden"]
+    total, keep = S.Zero, S.Zero
+    for t in case["terms"]:
+        fs = [AntiSymmetricTensor(name, (idx[ix[0]],), (idx[ix[1]],)) ** exp for name, ix, exp in t["objs"]]
+        ops = [(Fd if n % 2 == 0 else F)(idx[c]) for n, c in enumerate(t["ops"])]
+        sym = Mul(t["num"], *fs, *ops)
+        total += sym
+        space = {"i": "o", "j": "o", "a": "v", "b": "v"}
+        bad = any(name in forb and space[ix[0]] + space[ix[1]] in forb[name] for name, ix, _e in t["objs"])
+        if not bad:
+            keep += wicks(sym)          # without rules: checked by wicks.value
+    rules = Rules(forb or None)
+    res = wicks(total, rules=rules)
+    ok = (res - keep).expand() == 0
+    return ok, (f"wicks({total}, rules={forb}) = {res}; the terms without an excluded block "
+                f"evaluate to {keep}")
+
+
 def no_general_cases(tier, seed):
     yield {"groups": [[["Fd", "p"], ["F", "q"]], [["Fd", "a"], ["F", "i"]]], "no": [True, True]}
 
@@ -309,6 +356,9 @@ CHECKS = {
         "function": "adcgen.func:_contract_operator_string", "cases": wicks_cases,
         "check": wicks_check,
         "bound": "products of <= 6 operators in <= 3 groups (bare or normal ordered), indices from a pool of 6 (occ/virt/general, repeats allowed), one coefficient tensor over all summed indices, optional free (target) indices on single operators; explicit Fock-space evaluation, 2 occ + 2 virt spin orbitals"},
+    "wicks.rules": {
+        "function": "adcgen.func:wicks", "cases": wicks_rules_cases, "check": wicks_rules_check,
+        "bound": "sums of <= 4 terms (number x <= 2 one-particle tensors with exponents <= 2 x 0, 2 or 4 operators; operator free terms, bare tensors and powers included), rule sets over 2 tensor names / 4 blocks handed to wicks: the result is the Wick evaluation of exactly the terms without an excluded block"},
     "Rules.apply.filter": {
         "function": "adcgen.rules:Rules.apply", "cases": rules_cases,
         "check": rules_check,
